@@ -9,6 +9,7 @@ var commands = map[string]func([]string){
 	"c01gen":  cmdC01Gen,
 	"c01rand": cmdC01Rand,
 	"c02":     cmdC02,
+	"serve":   cmdServe,
 }
 
 func main() {
